@@ -75,9 +75,17 @@ impl<'a> Sys<'a> {
         Ev::new(self.k, "upd").i("i", id as i64).bytes("data", d).s("res", "ok").emit(self.out);
     }
     fn hclone(&mut self, id: usize, dst: usize) {
-        let s = self.hs.get(&id).unwrap();
-        let c = HSlot { h: s.h.cl(), alg: s.alg.clone(), n: s.n, msg: s.msg.clone() };
-        self.hs.insert(dst, c);
+        if self.hs.contains_key(&dst) && dst != id && self.hs[&dst].alg == self.hs[&id].alg && self.hs[&dst].n == self.hs[&id].n {
+            let mut d = self.hs.remove(&dst).unwrap();
+            let s = self.hs.get(&id).unwrap();
+            d.h.cl_from(&*s.h);
+            d.msg = s.msg.clone();
+            self.hs.insert(dst, d);
+        } else {
+            let s = self.hs.get(&id).unwrap();
+            let c = HSlot { h: s.h.cl(), alg: s.alg.clone(), n: s.n, msg: s.msg.clone() };
+            self.hs.insert(dst, c);
+        }
         self.k += 1;
         Ev::new(self.k, "clone").i("i", id as i64).i("j", dst as i64).s("res", "ok").emit(self.out);
     }
